@@ -703,6 +703,39 @@ def surface_lines(ctx, d, g, img, cs, tok, origin, lines, impl):
         impl.append(show(call(d.make_voxel_center, np.array(pts), matrix_indexing=mi), lambda r: show_rows(np.asarray(r))))
     lines.append(f"mkb coord 1 {pts_tokens(pts)}")
     impl.append(show(call(d.make_coordinate, np.array(pts)), lambda r: show_rows(np.asarray(r))))
+    # Image.slice by Cartesian name at a physical cut position vs by matrix index (model DarsiaModel.Slice, theorem C20.slice_name_eq_index):
+    # the payload encodes the voxel index, so the selected (axis, index) is read off the returned array
+    if dim >= 2:
+        grids = np.meshgrid(*[np.arange(n_) for n_ in shape], indexing="ij")
+        code = sum(gr * (16 ** k_) for k_, gr in enumerate(grids)).astype(float)
+        kw = dict(space_dim=dim, dimensions=list(g["dims"]), scalar=True, origin=list(origin))
+        simg = call(d.Image, code, **kw)
+
+        def selected(res, p_hint=None):
+            if isinstance(res, Raised):
+                return repr(res)
+            arr_ = np.asarray(res.img)
+            # when several axes fit (equal extents and identical data, e.g. extent 1) the selections are indistinguishable: prefer the hinted one
+            for p_ in ([p_hint] if p_hint is not None else []) + [q_ for q_ in range(dim) if q_ != p_hint]:
+                if arr_.shape != tuple(n_ for q_, n_ in enumerate(shape) if q_ != p_):
+                    continue
+                digits = (arr_.astype(np.int64) // (16 ** p_)) % 16
+                if digits.size and np.all(digits == digits.ravel()[0]):
+                    full = np.take(code, int(digits.ravel()[0]), axis=p_)
+                    if np.array_equal(full, arr_):
+                        return f"{p_} {int(digits.ravel()[0])}"
+            return "!not-a-slice"
+
+        if not isinstance(simg, Raised):
+            for i, name in enumerate("xyz"[:dim]):
+                p_, r_ = AXMAP[dim][i]
+                v_ = rng.randrange(shape[p_])
+                t_ = Fraction(rng.randint(0, 31), 32)
+                cut = float(frac(origin[i]) + (-1 if r_ else 1) * (v_ + t_) * (frac(g["dims"][p_]) / shape[p_]))
+                lines.append(f"slicen {name} {tok} {fmts([cut])}")
+                impl.append(selected(call(simg.slice, cut, name), p_))
+                lines.append(f"slicei {tok} {p_} {v_}")
+                impl.append(selected(call(simg.slice, v_, p_), p_))
     for mode in ("same", "dims", "shape", "origin", "dim"):
         g2 = variant_geometry(rng, g, mode)
         if g2 is None:
